@@ -100,7 +100,7 @@ class ErrorHandling:
 
         expected = {}  # value: token
 
-        for token_name in self.expected_tokens:
+        for token_name in sorted(self.expected_tokens):   # the table row order depends on the hash seed
             value = getattr(self.lexer, token_name, None)
             if token_name == 'ID':
                 # a lot of other tokens could be ID
